@@ -121,12 +121,17 @@ class FileSystemLoader(BaseLoader):
 
     @staticmethod
     def _uptodate(source_path: Path, mtime: float) -> bool:
-        return mtime == source_path.stat().st_mtime
+        try:
+            return mtime == source_path.stat().st_mtime
+        except OSError:
+            # The file has been removed or is no longer reachable. It is not up to
+            # date, and loading it again will raise a `TemplateNotFoundError`.
+            return False
 
     @staticmethod
     async def _uptodate_async(source_path: Path, mtime: float) -> bool:
         return await asyncio.get_running_loop().run_in_executor(
-            None, lambda: mtime == source_path.stat().st_mtime
+            None, FileSystemLoader._uptodate, source_path, mtime
         )
 
     async def get_source_async(
